@@ -800,7 +800,7 @@ def main():
                 rep.report(key, f"run {c['name']}: {detail}", small)
         else:
             if not isinstance(r, dict) or "results" not in r:
-                chk.note_inconclusive(f"config chunk {c['ids'][0]}: {str(r)[:300]}")
+                chk.note_inconclusive(f"config chunk {c['ids'][0]}: {str(r)[:300]}", fatal=True)
                 chk.evaluations += len(c["ids"])
                 continue
             cc = r["counts"]
@@ -833,7 +833,7 @@ def main():
         types = {}
         for c, r in zip(gcases, gres):
             if not isinstance(r, dict) or "results" not in r:
-                chk.note_inconclusive(f"generated chunk {c['ids'][0]}: {str(r)[:300]}")
+                chk.note_inconclusive(f"generated chunk {c['ids'][0]}: {str(r)[:300]}", fatal=True)
                 chk.evaluations += len(c["ids"])
                 continue
             chk.count("generated_files_read_back", r["counts"]["files_read_back"])
